@@ -84,6 +84,52 @@ def check_chaining(ctx):
             if isinstance(n, ast.If) and norm(n.test) == f"{cur}.predicate({op})":
                 ok_sel = any(f"{cur}.production({op})" in norm(s) for s in n.body) and any(f"[{op}]" in norm(s) for s in n.orelse)
                 sel = n
+    # the distributed spelling of the same thing: `[d for x in rule.production(op) for d in decompose_operation(x, rest)] if
+    # rule.predicate(op) else decompose_operation(op, rest)` (flattening over the one-element list [op] written out)
+    from ..common import exit_exprs
+
+    alt_ok = False
+    if not ok_sel:
+        for n in list(body_walk(fi.node)):
+            t = n.test if isinstance(n, (ast.IfExp, ast.If)) else None
+            if t is None or norm(t) != f"{cur}.predicate({op})":
+                continue
+            if isinstance(n, ast.IfExp):
+                yes, no = [n.body], [n.orelse]
+            else:
+                yes = [st.value for st in n.body if isinstance(st, ast.Return)]
+                tail = n.orelse or [st for st in fi.node.body if False]
+                no = [st.value for st in n.orelse if isinstance(st, ast.Return)]
+                if not no:
+                    # `if pred: return A` followed by `return B`
+                    blk = None
+                    for owner in ast.walk(fi.node):
+                        for fld in ("body", "orelse"):
+                            b = getattr(owner, fld, None)
+                            if isinstance(b, list) and n in b:
+                                blk = b
+                    if blk is not None:
+                        after = blk[blk.index(n) + 1:]
+                        no = [st.value for st in after if isinstance(st, ast.Return)][:1]
+            def resolve(e):
+                if isinstance(e, ast.Name):
+                    ds = [x for x in d.defs.get(e.id, []) if isinstance(x, ast.AST)]
+                    return ds[0] if len(ds) == 1 else e
+                return e
+            if len(yes) == 1 and len(no) == 1:
+                y, nn = resolve(yes[0]), resolve(no[0])
+                y_ok = isinstance(y, ast.ListComp) and len(y.generators) == 2 and norm(y.generators[0].iter) == f"{cur}.production({op})" and isinstance(y.generators[1].iter, ast.Call) and dotted(y.generators[1].iter.func) == fi.name and [norm(a) for a in y.generators[1].iter.args] == [norm(y.generators[0].target), rem] and norm(y.elt) == norm(y.generators[1].target) and not y.generators[0].ifs and not y.generators[1].ifs
+                n_ok = isinstance(nn, ast.Call) and dotted(nn.func) == fi.name and [norm(a) for a in nn.args] == [op, rem]
+                alt_ok = bool(y_ok and n_ok)
+    if alt_ok:
+        ctx.ok(R1, fi.key + ":predicate", "production(op) if predicate(op) else the operation itself", fi)
+        ctx.ok(R1, fi.key + ":remaining-rules", "each produced operation (or the kept one) is decomposed with the remaining rules, order preserved", fi)
+    else:
+        _check_chaining_tail(ctx, fi, repo, d, op, rem, cur, sel, ok_sel)
+    _check_decompose_operations(ctx, repo)
+
+
+def _check_chaining_tail(ctx, fi, repo, d, op, rem, cur, sel, ok_sel):
     ctx.check(bool(ok_sel), R1, fi.key + ":predicate", "production(op) if predicate(op) else [op]", f"the current rule is not applied exactly when its predicate holds, keeping the operation otherwise ({short(sel) if sel is not None else 'no selection found'})", fi)
     # every path's result is flattened through decompose_operation(x, remaining)
     rets = returned_exprs(fi.node)
@@ -104,6 +150,9 @@ def check_chaining(ctx):
     elif others:
         detail = f"a path returns {short(others[0])} without passing it to the remaining rules: a later rule is never applied to what an earlier rule produced"
     ctx.check(ok_rec, R1, fi.key + ":remaining-rules", "each produced operation is decomposed with the remaining rules, order preserved", detail, fi)
+
+
+def _check_decompose_operations(ctx, repo):
     # decompose_operations
     fo = repo.func(f"{DEC}:decompose_operations")
     ctx.analysed(fo)
